@@ -9,6 +9,7 @@ import (
 
 	"verifharness/hx"
 
+	"github.com/iotaledger/hive.go/runtime/options"
 	"github.com/iotaledger/hive.go/runtime/syncutils"
 	"github.com/iotaledger/hive.go/runtime/workerpool"
 )
@@ -41,9 +42,30 @@ type world struct {
 }
 
 func newWorld(w int, cancel bool) *world {
+	return newWorldOn(workerpool.New("c16", workerpool.WithWorkerCount(w), workerpool.WithCancelPendingTasksOnShutdown(cancel),
+		workerpool.WithPanicOnSubmitAfterShutdown(true)), w, cancel)
+}
+
+// newGroupWorld creates the pool through Group.CreatePool: explicit is "true"/"false" (the caller passes
+// WithCancelPendingTasksOnShutdown explicitly) or "none" (the group's default, cancel = true, applies).
+func newGroupWorld(w int, explicit string) *world {
+	g := workerpool.NewGroup("c16g")
+	opts := []options.Option[workerpool.WorkerPool]{workerpool.WithWorkerCount(w), workerpool.WithPanicOnSubmitAfterShutdown(true)}
+	cancel := true
+	switch explicit {
+	case "true":
+		opts = append(opts, workerpool.WithCancelPendingTasksOnShutdown(true))
+	case "false":
+		opts = append(opts, workerpool.WithCancelPendingTasksOnShutdown(false))
+		cancel = false
+	}
+
+	return newWorldOn(g.CreatePool("p", opts...), w, cancel)
+}
+
+func newWorldOn(pool *workerpool.WorkerPool, w int, cancel bool) *world {
 	wd := &world{w: w, cancel: cancel}
-	wd.pool = workerpool.New("c16", workerpool.WithWorkerCount(w), workerpool.WithCancelPendingTasksOnShutdown(cancel),
-		workerpool.WithPanicOnSubmitAfterShutdown(true))
+	wd.pool = pool
 	wd.pool.PendingTasksCounter.Subscribe(func(oldValue, newValue int) {
 		if newValue > oldValue {
 			wd.log(fmt.Sprintf("up %d", newValue))
@@ -106,7 +128,9 @@ func (wd *world) within(d time.Duration, f func()) bool {
 type body struct {
 	kids []body
 	gate chan struct{}
-	spin int
+	// gateFirst: wait for the gate before (not after) submitting the kids, and ask IsRunning in between
+	gateFirst bool
+	spin      int
 }
 
 // submit calls the real Submit for a fresh task id and logs call/acc/rej.
@@ -131,10 +155,14 @@ func (wd *world) submit(b body) (accepted bool) {
 			for i := 0; i < b.spin; i++ {
 				spinSink.Add(1)
 			}
+			if b.gateFirst && b.gate != nil {
+				<-b.gate
+				wd.pool.IsRunning()
+			}
 			for _, k := range b.kids {
 				wd.submit(k)
 			}
-			if b.gate != nil {
+			if b.gate != nil && !b.gateFirst {
 				<-b.gate
 			}
 			wd.log(fmt.Sprintf("re %d", t))
@@ -284,8 +312,10 @@ func (wd *world) classify(what string) map[string]string { return classifyPool(w
 func classifyPool(pool *workerpool.WorkerPool, what string) map[string]string {
 	st := poolStateOf(pool)
 	switch {
-	case !st.readable:
+	case !st.readable && what == "start":
 		return map[string]string{"api": "workerpool.Start", "effect": "pool-lock-held-while-waiting", "wait": what}
+	case !st.readable:
+		return map[string]string{"api": "workerpool", "effect": "pool-lock-held-for-ever", "wait": what}
 	case st.running == "false" && st.queued > 0 && st.pending > 0:
 		return map[string]string{"api": "workerpool.Submit", "window": "running-check..push", "effect": "pushed-after-dispatcher-left-its-loop"}
 	case st.running == "false" && st.queued == 0 && st.pending == 0 && what == "complete":
